@@ -20,6 +20,7 @@ import OtterVerif.Impl.Ring
 import OtterVerif.Conc.RingSkeleton
 import OtterVerif.Gen.Skeleton
 import OtterVerif.Conc.Ring
+import OtterVerif.Conc.Striped
 
 namespace OtterVerif.Props.C17
 open OtterVerif.Impl.Ring
@@ -92,6 +93,32 @@ theorem c17_conc_example : ∃ s, Conc.Ring.Reach s ∧ s.delivered = [7] ∧ s.
   · rfl
   · rfl
   · simp [Conc.Ring.upd]
+
+/-! ### The stripe table above the rings, for every interleaving of stripe creation and table expansion (Conc.Striped) -/
+
+/-- no ring is orphaned by an expansion or a racing creation: every ring created so far is referenced by the current table,
+    at exactly one index (the consumer's pass over the table visits every ring, once) -/
+theorem c17_conc_ring_in_table_once {s : Conc.Striped.St} (h : Conc.Striped.Reach s) {v : Nat} (hc : s.cur = some v) {r : Nat}
+    (hr : r < s.rings) : ∃ j, j < s.len v ∧ s.slot v j = some r ∧ ∀ j', s.slot v j' = some r → j' = j :=
+  Conc.Striped.ring_in_current_once h hc hr
+
+/-- a recorder working with a stale table pointer still records into a ring of the current table -/
+theorem c17_conc_stale_table_ring_is_live {s : Conc.Striped.St} (h : Conc.Striped.Reach s) {v : Nat} (hc : s.cur = some v)
+    {v' j r : Nat} (hs : s.slot v' j = some r) : ∃ j', j' < s.len v ∧ s.slot v j' = some r :=
+  Conc.Striped.stale_ring_is_live h hc hs
+
+/-- non-vacuity: first ring, expansion to two stripes, a second ring in the new stripe: both rings in the current table -/
+theorem c17_conc_striped_example : ∃ s, Conc.Striped.Reach s ∧ s.cur = some 1 ∧ s.rings = 2 ∧ s.slot 1 0 = some 0 ∧ s.slot 1 1 = some 1 := by
+  have r0 := Conc.Striped.Reach.init
+  have r1 := Conc.Striped.Reach.step r0 (Conc.Striped.Step.lockInit _ rfl rfl)
+  have r2 := Conc.Striped.Reach.step r1 (Conc.Striped.Step.unlock _ rfl)
+  have r3 := Conc.Striped.Reach.step r2 (Conc.Striped.Step.lockExpand _ 0 rfl rfl)
+  have r4 := Conc.Striped.Reach.step r3 (Conc.Striped.Step.expandCopy _ 0 0 1 rfl (by decide))
+  have r5 := Conc.Striped.Reach.step r4 (Conc.Striped.Step.expandPublish _ 0 1 1 rfl rfl)
+  have r6 := Conc.Striped.Reach.step r5 (Conc.Striped.Step.unlock _ rfl)
+  have r7 := Conc.Striped.Reach.step r6 (Conc.Striped.Step.lockCreate _ 1 1 rfl rfl (by decide))
+  have r8 := Conc.Striped.Reach.step r7 (Conc.Striped.Step.createStore _ 1 1 rfl rfl)
+  exact ⟨_, r8, rfl, rfl, rfl, rfl⟩
 
 theorem skeleton_ring_add : Gen.Skeleton.ring_add = Conc.RingSkeleton.ring_add := by decide
 
